@@ -41,6 +41,43 @@ theorem proj_single_self (p : Nat) (l : Line) : proj p [(p, l)] = [l] := by simp
 theorem proj_single_other {p q : Nat} (l : Line) (h : q ≠ p) : proj p [(q, l)] = [] := by
   simp [proj, h]
 
+/-! ### The writeLoop merges, never loses -/
+
+/-- Generalised merge/expand law for a writeLoop that starts in any state of the loop. -/
+theorem drainBatch_expand (ls : List Line) : ∀ (cur : Option Line) (dups : Nat), (cur = none → dups = 0) →
+    let r := drainBatch { pc := .drain, cur := cur, dups := dups } ls
+    expand r.2 ++ r.1.pending = ({ pc := .drain, cur := cur, dups := dups } : Writer).pending ++ ls ∧
+    r.1.pc = .drain ∧ (r.1.cur = none → r.1.dups = 0) := by
+  induction ls with
+  | nil => intro cur dups hz; simp [drainBatch, expand]; exact hz
+  | cons l ls ih =>
+    intro cur dups hz
+    cases cur with
+    | none =>
+      have hd : dups = 0 := hz rfl
+      subst hd
+      have := ih (some l) 0 (by simp)
+      simp only [drainBatch, wstep, if_true] at this ⊢
+      obtain ⟨a, b, c⟩ := this
+      refine ⟨?_, b, c⟩
+      simp [expand] at a ⊢
+      rw [a]; simp [Writer.pending]
+    | some c =>
+      by_cases he : l.equal c = true
+      · have hlc := equal_eq he
+        have := ih (some c) (dups + 1) (by simp)
+        simp only [drainBatch, wstep, if_true, he] at this ⊢
+        obtain ⟨a, b, c'⟩ := this
+        refine ⟨?_, b, c'⟩
+        simp [expand] at a ⊢
+        rw [a]; subst hlc; simp only [Writer.pending]; rw [List.replicate_succ' (n := dups + 1)]; simp
+      · have := ih (some l) 0 (by simp)
+        simp only [drainBatch, wstep, if_true, he] at this ⊢
+        obtain ⟨a, b, c'⟩ := this
+        refine ⟨?_, b, c'⟩
+        simp [expand_append, expand] at a ⊢
+        rw [a]; simp [Writer.pending]
+
 /-! ### The protocol invariant
 
 * `d1 d2 p1 cp`: data — what was dequeued plus what is buffered is what was enqueued; the adapter output,
